@@ -331,7 +331,7 @@ impl Prop for C08 {
         }
         // ---- family 5a': permitted alphabets over the 65 k-character tables (work must stay proportional to the input)
         {
-            let long: String = (0..40).map(|_| "abcdefghij").collect();
+            let long: String = (0..150).map(|_| "abcdefghij").collect();
             for (lab, body) in [
                 ("alphabet-wide:range-union", "A ::= BMPString (SIZE (1..4) ^ FROM (\"c\"..\"\u{20ac}\" | \"0\"))".to_string()),
                 ("alphabet-wide:range", "A ::= UniversalString (FROM (\"a\"..\"\u{ffee}\"))".to_string()),
